@@ -56,21 +56,7 @@ static vp_ref_t vp_ref;
 static ldb_blockiter_t *vp_bi;
 static int vp_cur;
 
-/* VP_OS<k>: set of operations allowed at step k (bit i = VP_OP_* i; 31 = all).
-   Excluded operations are removed from the program of that step. */
-#ifndef VP_OS0
-#define VP_OS0 31
-#endif
-#ifndef VP_OS1
-#define VP_OS1 31
-#endif
-#ifndef VP_OS2
-#define VP_OS2 31
-#endif
-#ifndef VP_OS3
-#define VP_OS3 31
-#endif
-static const int vp_os[8] = { VP_OS0, VP_OS1, VP_OS2, VP_OS3, 31, 31, 31, 31 };
+#include "C07/ops.h"
 
 static void
 vp_check(void) {
@@ -191,10 +177,16 @@ harness(void) {
     }
 
     if (vp_cur >= 0) {
+#if VP_LAST_SEEK
       if (op == VP_OP_SEEK) VP_WITNESS("seek-valid");
+#endif
+#if VP_LAST_LAST
       if (op == VP_OP_LAST) VP_WITNESS("last-valid");
-#if VP_N >= 2 && VP_K >= 2
+#endif
+#if VP_N >= 2 && VP_K >= 2 && VP_LAST_NEXT
       if (op == VP_OP_NEXT) VP_WITNESS("next-valid");
+#endif
+#if VP_N >= 2 && VP_K >= 2 && VP_LAST_PREV
       if (op == VP_OP_PREV) VP_WITNESS("prev-valid");
 #endif
     } else {
